@@ -28,6 +28,9 @@ func genC01(t *rapid.T, tier string) C01Case {
 		c.Cfg.Cache = "none"
 		c.Cfg.Marshaler = "json"
 		c.Cfg.Format = ref.FormatBinary
+		if c.Cfg.Cmp == "reversed" {
+			c.Cfg.Cmp = "" // NewInMemory() has no configuration: it always uses the default order
+		}
 	}
 	maxOps := 80
 	if tier == "thorough" {
